@@ -9,7 +9,7 @@ import ast
 
 from ..program import AnalysisError, walk_local, dotted
 from ..analysis import Spec, src, const_value
-from ..rules import (first_rest, canon, inside, before, GWF, EXC, mpt, need_func, need_call, stores_to,
+from ..rules import (chained_loop, first_rest, canon, inside, before, GWF, EXC, mpt, need_func, need_call, stores_to,
                      parent_map, outcomes, explicit_exits, strip_wrappers,
                      chained_assign_value, raise_class)
 from . import common
@@ -109,33 +109,25 @@ def tips_refreshed(prog, an, rep):
     ok = len(loops) == 1 and (len(calls) == 1 or u is f)
     if ok:
         lp = loops[0]
-        lv = [t.id for t in ast.walk(lp.target) if isinstance(t, ast.Name)]
-        rest = {r for _, r, _ in first_rest(f) if r is not None}
-        ok = any(r in src(lp.iter) for r in rest)
-        if u is not f:
-            a0 = [src(a) for a in calls[0].args]
-            ok = ok and len(a0) == 2 and a0[0] == lv[-1] and \
-                isinstance(calls[0].args[1], ast.Name)
-            prevs = {a0[1]} if len(a0) == 2 else set()
-            site_done = [d for nd in cf.nodes.values() if nd.kind == 'stmt'
-                         and any(x is calls[0] for x in ast.walk(nd.ast))
-                         for d in cf.done_of(nd)]
-        else:
-            ok = ok and all(w == lv[-1] for w, _ in preds)
-            prevs = {p_ for _, p_ in preds}
-            site_done = done
-        # every iteration re-merges, and the predecessor advances to the
-        # branch just updated
-        head = cf.stmt_node[id(lp)]
-        for s0 in [s_ for s_ in cf.succ[head]
-                   if cf.nodes[s_].kind == 'true']:
-            if cf.path(s0, head, removed=set(site_done), use_exc=False):
-                ok = False
-        for pv in prevs:
-            adv = [st for st, v in stores_to(f, pv)
-                   if v is not None and src(v) == lv[-1] and
-                   inside(lp, st)]
-            ok = ok and len(adv) == 1
+        ch = chained_loop(an, f, lp)
+        ok = ch is not None
+        if ok:
+            cur, prev = ch
+            if u is not f:
+                ok = [src(a) for a in calls[0].args] == [cur, prev]
+                site_done = [d for nd in cf.nodes.values()
+                             if nd.kind == 'stmt' and
+                             any(x is calls[0] for x in ast.walk(nd.ast))
+                             for d in cf.done_of(nd)]
+            else:
+                ok = preds == {(cur, prev)}
+                site_done = done
+            # every iteration re-merges
+            head = cf.stmt_node[id(lp)]
+            for s0 in [s_ for s_ in cf.succ[head]
+                       if cf.nodes[s_].kind == 'true']:
+                if cf.path(s0, head, removed=set(site_done), use_exc=False):
+                    ok = False
     rep.evaluated()
     rep.check(ok, R, f.qname + ': update(branch, prev) for every later '
               'integration branch', f.where(), 'update is applied as %s in '
